@@ -36,6 +36,7 @@ def run(tier, seed, jobs):
         "is explained by a counting/FIFO reference automaton (powerset simulation)"
     )
     return {"level": "model_checking", "coverage": cov, "violations": viol,
+            "harness_errors": cov.pop("harness_errors", []),
             "assumptions": ["VLoop reproduces asyncio.BaseEventLoop batching",
                             "one in-flight acquire_on_behalf_of per foreign borrower"]}
 
